@@ -16,11 +16,14 @@ PROGRAMS = [
     # the loop thread inflates server messages (server_no_context_takeover: its context is reset after each) while another thread compresses
     ("sender-vs-inflating-loop", {"compress": True, "ext_options": {"server_no_context_takeover": ""},
                                   "threads": {"A": [["send_text", T + "A1"], ["send_text", T + "A2"]], "L": [["loop_inflate", list((T + "S1").encode())], ["loop_inflate", list((T + "S2").encode())]]}}),
+    # client_no_context_takeover negotiated: the compressor is reset after every message, it is shared all the same
+    ("two-compressed-senders-no-takeover", {"compress": True, "ext_options": {"client_no_context_takeover": ""},
+                                            "threads": {"A": [["send_text", T + "A1"], ["send_text", T + "A2"]], "B": [["send_binary", list((T + "B1").encode())]]}}),
     ("three-senders", {"compress": True, "threads": {"A": [["send_text", T + "A1"]], "B": [["send_binary", list((T + "B1").encode())]], "C": [["send_ping", [9]], ["send_text", T + "C2"]]}}),
 ]
 BQ = {name: 1 for name, _ in PROGRAMS}
-BT = {"sender-vs-inflating-loop": 2, "incompressible-then-repeated": 1, "large-frame-vs-small": 1, "two-senders": 2, "two-compressed-senders": 2, "binary-vs-text-compressed": 2, "sender-vs-loop": 2, "three-senders": 1}
-RULE = ('every schedule with at most 1-2 pre-emptions (line granularity, stateless exhaustive search) of 8 thread programs (2-3 threads x 1-2 sends each: '
+BT = {"two-compressed-senders-no-takeover": 2, "sender-vs-inflating-loop": 2, "incompressible-then-repeated": 1, "large-frame-vs-small": 1, "two-senders": 2, "two-compressed-senders": 2, "binary-vs-text-compressed": 2, "sender-vs-loop": 2, "three-senders": 1}
+RULE = ('every schedule with at most 1-2 pre-emptions (line granularity, stateless exhaustive search) of 9 thread programs (2-3 threads x 1-2 sends each: '
         'send_text / send_binary / send_ping / the loop\'s pong and auto-ping; with and without negotiated compression, context takeover), every sendall split '
         'in two steps; every schedule with one pre-emption at OPCODE granularity for the two-thread programs; thorough adds 6000 random opcode-granular schedules; non-trivial = distinct (program, wire order, call results)')
 
